@@ -1327,6 +1327,13 @@ func (d *DFA) searchAt(cache *DFACache, haystack []byte, startPos int) int { //n
 	return lastMatch
 }
 
+// errDeterminizationLimit is returned by determinize when the successor state
+// would hold more NFA states than Config.DeterminizationLimit.
+var errDeterminizationLimit = &DFAError{
+	Kind:    StateLimitExceeded,
+	Message: "determinization limit exceeded",
+}
+
 // determinize creates a new DFA state for the given state + input byte.
 // This is the on-demand state construction that makes the DFA "lazy".
 //
@@ -1347,6 +1354,10 @@ func (d *DFA) searchAt(cache *DFACache, haystack []byte, startPos int) int { //n
 //
 //	or if determinization limit exceeded.
 func (d *DFA) determinize(cache *DFACache, current *State, b byte) (*State, error) {
+	if c := d.byteToClass(b); current.overLimit[c>>6]&(1<<(c&63)) != 0 {
+		return nil, errDeterminizationLimit
+	}
+
 	// Need builder for move operations.
 	// Use NewBuilderWithWordBoundary to pass pre-computed flag and avoid O(states) scan.
 	builder := NewBuilderWithWordBoundary(d.nfa, d.config, d.hasWordBoundary)
@@ -1395,11 +1406,10 @@ func (d *DFA) determinize(cache *DFACache, current *State, b byte) (*State, erro
 
 	// Check if we've exceeded determinization limit
 	if len(nextNFAStates) > d.config.DeterminizationLimit {
-		// Too many NFA states: fall back to avoid exponential blowup
-		return nil, &DFAError{
-			Kind:    StateLimitExceeded,
-			Message: "determinization limit exceeded",
-		}
+		// Too many NFA states: fall back to avoid exponential blowup.
+		// Remember it, so that later searches do not redo this work.
+		current.overLimit[classIdx>>6] |= 1 << (classIdx & 63)
+		return nil, errDeterminizationLimit
 	}
 
 	// The next state's isFromWord is determined by the CURRENT byte
